@@ -4,6 +4,7 @@ go 1.17
 
 require (
 	github.com/MinterTeam/minter-go-node v0.0.0
+	github.com/cosmos/cosmos-sdk v0.44.5
 	github.com/google/btree v1.0.0
 	github.com/tendermint/go-amino v0.16.0
 	github.com/tendermint/tendermint v0.34.19
@@ -17,7 +18,6 @@ require (
 	github.com/btcsuite/btcd v0.22.0-beta // indirect
 	github.com/cespare/xxhash/v2 v2.1.2 // indirect
 	github.com/confio/ics23/go v0.6.6 // indirect
-	github.com/cosmos/cosmos-sdk v0.44.5 // indirect
 	github.com/cosmos/iavl v0.17.3 // indirect
 	github.com/davecgh/go-spew v1.1.1 // indirect
 	github.com/go-kit/kit v0.12.0 // indirect
